@@ -316,19 +316,40 @@ func doBind(sc *Collection, originalInvokeF *provider, originalInitF *provider, 
 		}
 	}
 
-	// Generate static chain function
+	// Generate static chain function.  Literals and static injectors take effect
+	// in the order in which they are listed: a literal listed after an init
+	// parameter, a static injector or another literal of the same type overrides
+	// it, and a literal is a value, not a computation, so it is still applied
+	// when an earlier fallible static injector has failed.
+	staticSequence := make([]*provider, 0, len(collections[literalGroup])+len(collections[staticGroup]))
+	for _, fm := range funcs {
+		if fm.include && (fm.group == literalGroup || fm.group == staticGroup) {
+			staticSequence = append(staticSequence, fm)
+		}
+	}
 	runStaticChain := func() error {
 		debugf("STATIC CHAIN LENGTH: %d", len(collections[staticGroup]))
-		for _, inj := range collections[staticGroup] {
+		var failed error
+		for _, inj := range staticSequence {
+			if inj.group == literalGroup {
+				i := downVmap[inj.flows[outputParams][0]]
+				if i >= 0 {
+					baseValues[i] = reflect.ValueOf(inj.fn)
+				}
+				continue
+			}
+			if failed != nil {
+				continue
+			}
 			debugf("STATIC CHAIN CALLING %s", inj)
 
 			err := inj.wrapStaticInjector(baseValues)
 			if err != nil {
-				debugf("STATIC CHAIN RETURNING EARLY DUE TO ERROR %s", err)
-				return err
+				debugf("STATIC CHAIN SKIPPING THE REMAINING INJECTORS DUE TO ERROR %s", err)
+				failed = err
 			}
 		}
-		return nil
+		return failed
 	}
 	for _, inj := range collections[staticGroup] {
 		if inj.wrapStaticInjector == nil {
